@@ -97,6 +97,21 @@ pub fn main(args: &[String]) -> i32 {
                     }
                 });
             }
+            if flag(args, "--brief") {
+                crate::hist::with_hist(|h| {
+                    for r in &h.recs {
+                        if r.phase == 0 || matches!(r.op, crate::plan::Op::Drain { .. } | crate::plan::Op::WaitAcks { .. }) { continue; }
+                        let res = match &r.res {
+                            crate::hist::Res::Samples(Ok(v)) => format!("[{}]", v.iter().map(|s| format!("k{}:{}{}{}{}s{}g{}/{}r{}/{}/{}", s.ih[0], if s.valid { s.seq.to_string() } else { "inv".into() }, if s.read { "R" } else { "" }, if s.new { "N" } else { "" }, ["", "D", "W"][s.ist as usize], "", s.dgc, s.nwgc, s.srank, s.grank, s.agrank)).collect::<Vec<_>>().join(" ")),
+                            x => format!("{:?}", x),
+                        };
+                        println!("ph{} c{} #{} t={:.4} {} -> {}", r.phase, r.client, r.idx, r.inv_t as f64 / 1e9, serde_json::to_string(&r.op).unwrap(), res);
+                    }
+                    for c in &h.callbacks {
+                        println!("callback t={:.4} {}@{}{} {} total={} change={} code={} last={:02x?}", c.t as f64 / 1e9, c.what, c.level, c.owner, c.entity[15], c.total, c.change, c.code, &c.last[..2]);
+                    }
+                });
+            }
             if flag(args, "--logs") {
                 crate::hist::with_hist(|h| {
                     for (r, l) in &h.reader_logs {
@@ -131,6 +146,7 @@ pub fn main(args: &[String]) -> i32 {
         }
         Some("check") => crate::batch::check(args),
         Some("replay") => crate::batch::replay(args),
+        Some("mkreplay") => crate::batch::mkreplay(args),
         Some("list") => {
             for d in scen::all() {
                 println!("{} {}", d.prop, d.name);
